@@ -11,6 +11,7 @@
   * `abs` reads a `State` as a `Spec`;  `Inv` is the representation invariant
     (names duplicate-free and exactly the keys of ctxMap, every context has a document and `*`).
 -/
+import YtkModel.Generated.Constants
 import YtkProofs.DocSet
 
 namespace Ytk.C18
@@ -230,5 +231,8 @@ theorem nonvacuous_history :
     (step (run init (exOps.take 4)) (.add "b" 5 [.mustCreate])).2 = true ∧
     genNames init exOps = ["default__1", "default__2"] := by
   decide
+
+/-- Tie to the source text (regenerated on every run): the implicit tag every document carries. -/
+theorem source_constants : Generated.const? "analytics.wildcardTag" = some "*" := by decide
 
 end Ytk.C18
